@@ -1,4 +1,6 @@
 import NimaVerif.Lemmas.NPath
+import NimaVerif.Lemmas.SameName
+import NimaVerif.Model.Edit
 import NimaVerif.Gen.Tables
 /-!
 # C12 — attribute names in paths are written and matched faithfully
@@ -18,6 +20,9 @@ theorem tie_ident_start : Gen.identStartRanges = some identStartRanges := by dec
 theorem tie_ident_rest : Gen.identRestRanges = some identRestRanges := by decide
 theorem tie_anchor : Gen.identDollarAnchor = some currentAnchor := by decide
 theorem tie_keywords : Gen.npKeywords = some npKeywords := by decide
+theorem tie_name_start : Gen.nameStartRanges = some nameStartRanges := by decide
+theorem tie_name_rest : Gen.nameRestRanges = some nameRestRanges := by decide
+theorem tie_name_escapes : Gen.nameEscapes = some nameEscapes := by decide
 
 /-- The model's `escapeNix` is the interpreter of `escapeTable` (so the tie above is about the
     function the theorems speak of). -/
@@ -150,27 +155,136 @@ theorem cex_keyword_unquoted :
     nixDecodeName (formatAttrNameWith false [] ⟨"if".toList, false⟩) ≠ some "if".toList := by
   decide
 
-/-! ## 5. One attribute per Nix name — FULL statement, false of the current code.
+/-! ## 5. One attribute per Nix name (repaired: `fix:` C12-spelling)
 
-`lookupBySpelling` is how `_find_binding` & co. compare: rendered spelling against rendered
-spelling. The property demands that spellings Nix reads as the same name denote one attribute. -/
+`sameName` is the model of `_same_attr_name`, the comparison `_find_binding`, `_find_named_binding`,
+`_find_attrpath_root` and `AttributeSet.__getitem__/__setitem__/__delitem__` apply to the name token
+of a binding and the key they look for (`NameCmp.model` in Model/Edit.lean); `decodeAttrName` is the
+model of `_decode_attr_name`. `nixDecodeName` is the SPEC of how Nix reads a name token. -/
 
+/-- The code's reading of a name token is Nix's, wherever Nix reads a name … -/
+theorem reads_like_nix (tok n : Text) (h : nixDecodeName tok = some n) : decodeAttrName tok = some n :=
+  decodeAttrName_of_spec tok n h
+
+/-- … and it reads nothing else (a reserved word written bare is no name token for Nix). -/
+theorem reads_nothing_else (tok n : Text) (h : decodeAttrName tok = some n)
+    (hk : nixKeywords.contains tok = false) : nixDecodeName tok = some n :=
+  decodeAttrName_sound tok n h hk
+
+/-- The string body is decoded with exactly Nix's escapes (`\"`, `\\`, `\n`, `\r`, `\t`, `\${`, `$$`). -/
+theorem body_decoded_like_nix (s : Text) : decodeNameBody s = decodeBody s := decodeNameBody_eq_spec s
+
+/-- The comparison is an equivalence relation on tokens. -/
+theorem same_name_equivalence :
+    (∀ a, sameName a a = true) ∧ (∀ a b, sameName a b = sameName b a) ∧
+    (∀ a b c, sameName a b = true → sameName b c = true → sameName a c = true) :=
+  ⟨sameName_refl, sameName_symm, sameName_trans⟩
+
+/-- FULL statement of clause 5: a token of the file that Nix reads as the name of the segment is
+    matched by the token `set`/`rm` look for, whichever spelling the file and the path use. -/
 def OneAttributePerName : Prop :=
   ∀ (fileTok : Text) (s : Seg), nixDecodeName fileTok = some s.name →
-    fileTok = formatAttrName false s
+    sameName fileTok (formatAttrName false s) = true
 
-/-- Counterexample (open known finding C12-spelling): the file spells the name `a` bare, the path
-    addresses it as `"a"`; both denote `a`, the spellings differ, so the lookup misses and a
-    second definition is written. Replayed on the implementation by the check. -/
-theorem cex_spelling : ¬ OneAttributePerName := by
+/-- On tokens Nix can read, the comparison is equality of the names they denote: the same name is
+    one attribute, different names are never confused. -/
+theorem same_name_iff_same_nix_name (f g a b : Text)
+    (hf : nixDecodeName f = some a) (hg : nixDecodeName g = some b) :
+    sameName f g = true ↔ a = b := sameName_iff_spec f g a b hf hg
+
+/-- Clause 5 holds (it was `cex_spelling : ¬ OneAttributePerName` before the repair, with
+    `fileTok = formatAttrName false s` as the comparison). -/
+theorem one_attribute_per_name : OneAttributePerName := by
+  intro fileTok s h
+  exact (sameName_iff_spec fileTok (formatAttrName false s) s.name s.name h (faithful_writing s)).mpr rfl
+
+/-- The path may spell a segment bare or quoted: both address the same attribute. -/
+theorem path_spelling_irrelevant (s s' : Seg) (h : s.name = s'.name) :
+    sameName (formatAttrName false s) (formatAttrName false s') = true :=
+  (sameName_iff_spec _ _ s.name s'.name (faithful_writing s) (faithful_writing s')).mpr h
+
+/-- Different names stay different attributes (in particular `"a.b"` is not the nested path `a.b`,
+    and no quoted spelling of `x` matches a binding `y`). -/
+theorem distinct_names_stay_apart (f g a b : Text)
+    (hf : nixDecodeName f = some a) (hg : nixDecodeName g = some b) (hne : a ≠ b) :
+    sameName f g = false := by
+  cases h : sameName f g with
+  | false => rfl
+  | true => exact absurd ((sameName_iff_spec f g a b hf hg).mp h) hne
+
+/-- Names with an interpolation (no static name) keep being compared by spelling. -/
+theorem dynamic_names_by_spelling (a b : Text) (h : decodeAttrName a = none) :
+    sameName a b = true ↔ a = b := sameName_dynamic a b h
+
+/-- The lookup of the edit code (`_find_binding` with the comparison of the source) never misses an
+    existing attribute: if some binding of the set is spelled with a token Nix reads as the
+    segment's name, the lookup finds a binding, and the one it finds denotes that name. -/
+theorem lookup_finds_existing (vs : List Node) (s : Seg) (b : Node) (tok : Text)
+    (hb : b ∈ vs) (hbind : b.isBind = true) (hn : b.bindName? = some tok)
+    (htok : nixDecodeName tok = some s.name) :
+    ∃ b' tok', @findBinding NameCmp.model vs (formatAttrName false s) = some b' ∧
+      b'.bindName? = some tok' ∧ sameName tok' (formatAttrName false s) = true := by
+  have hmatch : (b.isBind && @nameIs NameCmp.model b (formatAttrName false s)) = true := by
+    simp only [nameIs, hn, hbind, Bool.true_and]
+    exact one_attribute_per_name tok s htok
+  cases hf : @findBinding NameCmp.model vs (formatAttrName false s) with
+  | none =>
+    unfold findBinding at hf
+    have := List.find?_eq_none.mp hf b hb
+    simp [hmatch] at this
+  | some b' =>
+    unfold findBinding at hf
+    have hp := List.find?_some hf
+    simp only [Bool.and_eq_true] at hp
+    cases hn' : b'.bindName? with
+    | none => simp [nameIs, hn'] at hp
+    | some tok' =>
+      refine ⟨b', tok', rfl, hn', ?_⟩
+      simp only [nameIs, hn'] at hp
+      exact hp.2
+
+/-- … and never takes a binding of another name for it. -/
+theorem lookup_finds_only_that_name (vs : List Node) (s : Seg) (b' : Node) (tok' n' : Text)
+    (hf : @findBinding NameCmp.model vs (formatAttrName false s) = some b')
+    (hn : b'.bindName? = some tok') (hd : nixDecodeName tok' = some n') : n' = s.name := by
+  unfold findBinding at hf
+  have hp := List.find?_some hf
+  simp only [Bool.and_eq_true, nameIs, hn] at hp
+  exact (sameName_iff_spec tok' _ n' s.name hd (faithful_writing s)).mp hp.2
+
+/-- The defect as it was, kept as a theorem about the comparison by spelling (`NameCmp.spelled`,
+    still used by `Scope.get_binding`) so that a regression is recognised for what it is: the file
+    spells the name `a` bare, the path addresses it as `"a"`; both denote `a`, the spellings differ. -/
+theorem cex_spelling_by_spelling :
+    ¬ ∀ (fileTok : Text) (s : Seg), nixDecodeName fileTok = some s.name →
+        NameCmp.spelled.same fileTok (formatAttrName false s) = true := by
   intro h
   have := h "a".toList ⟨"a".toList, true⟩ (by decide)
   revert this
   decide
 
-/-- What does hold: the spelling `set` writes is a function of the segment alone, so a second
-    `set`/`rm` with the same path text looks for the very same token (refinding). -/
-theorem refinding_partial (p : Text) (t1 t2 : List Text)
+/-! The finding's own input, evaluated in the model of the repaired code and, for contrast, with the
+comparison by spelling. -/
+
+/-- `{ a = 1; }` -/
+def exBare : Doc :=
+  { target := .set 0 [.bind 1 "a".toList false (.atom "1".toList) [] []] [] false false }
+
+theorem repaired_set_updates_in_place :
+    @setValue NameCmp.model "\"a\"".toList (.one (.atom "2".toList)) exBare =
+      (.ok (), exBare.updBind 1 (.atom "2".toList)) := rfl
+
+theorem by_spelling_wrote_a_second_definition :
+    (@setValue NameCmp.spelled "\"a\"".toList (.one (.atom "2".toList)) exBare).2.target.setValues.length = 2 := rfl
+
+theorem repaired_rm_finds_it :
+    (@removeValue NameCmp.model "\"a\"".toList exBare).1 = .ok () ∧
+    (@removeValue NameCmp.model "\"a\"".toList exBare).2.target.setValues = [] ∧
+    (@removeValue NameCmp.spelled "\"a\"".toList exBare).1 = .error .key := ⟨rfl, rfl, rfl⟩
+/-- Refinding: the spelling `set` writes is a function of the segment alone, so a second `set`/`rm`
+    with the same path text looks for the very same token — and with `path_spelling_irrelevant`, a
+    path that spells the segments differently finds the same bindings as well. -/
+theorem refinding (p : Text) (t1 t2 : List Text)
     (h1 : formatNPath false p = .ok t1) (h2 : formatNPath false p = .ok t2) : t1 = t2 := by
   rw [h1] at h2; injection h2
 
@@ -180,5 +294,9 @@ example : parseNPath false "services.\"foo.bar\".\"a\\\"b\"".toList =
     .ok [⟨"services".toList, false⟩, ⟨"foo.bar".toList, true⟩, ⟨"a\"b".toList, true⟩] := by decide
 example : formatAttrName false ⟨"${x}\n".toList, true⟩ = "\"\\${x}\\n\"".toList := by decide
 example : renderSeg "foo.bar".toList = "\"foo.bar\"".toList := by decide
+example : sameName "foo-bar".toList "\"foo-bar\"".toList = true := by decide
+example : sameName "\"a\\nb\"".toList "\"a\nb\"".toList = true := by decide
+example : sameName "\"a.b\"".toList "a.b".toList = false := by decide
+example : sameName "\"${x}\"".toList "\"\\${x}\"".toList = false := by decide
 
 end Nima.C12
